@@ -63,6 +63,13 @@ Section World.
   Definition remove_file (w : world) (p : bytes) : world :=
     set_files w (aremove bytes_eqb (w_files w) p).
 
+  (* mv p q by the user: the file record itself (content, modification time, executable bit) moves; q is replaced *)
+  Definition move_file (w : world) (p q : bytes) : world :=
+    match fget w p with
+    | Some f => set_files w (ainsert bytes_eqb (aremove bytes_eqb (w_files w) p) q f)
+    | None => w
+    end.
+
   Definition set_exec (w : world) (p : bytes) (x : bool) : world :=
     match fget w p with
     | Some f => set_files w (ainsert bytes_eqb (w_files w) p (mk_file (f_content f) (f_mtime f) x))
@@ -93,3 +100,4 @@ Arguments tick {T}.
 Arguments write_file {T}.
 Arguments remove_file {T}.
 Arguments set_exec {T}.
+Arguments move_file {T}.
